@@ -250,7 +250,15 @@ def _check_bd(case, ctx):
     _size_labels(ctx, case)
     ctx.label("bd:" + method, "api=" + api)
 
-    bd = bdm.BlockDiagonalizer(K, iPu, noise)
+    if case["chan"]["seed"] % 3 == 0:
+        # the object was created for other values and its public attributes
+        # were then assigned (a power / noise sweep on one object)
+        ctx.label("attributes_reassigned")
+        bd = bdm.BlockDiagonalizer(K, 7.0 * iPu, 3.0 * noise)
+        bd.iPu = iPu
+        bd.noise_var = noise
+    else:
+        bd = bdm.BlockDiagonalizer(K, iPu, noise)
     if method == "wf":
         if api == "func":
             newH, Ms = bdm.block_diagonalize(Hlib, K, iPu, noise)
@@ -379,10 +387,20 @@ def _check_extint(case, ctx):
                                 ext if isinstance(ext, int) else list(ext))
     mu.noise_var = noise
 
+    reassigned = case["chan"]["seed"] % 3 == 0
+    a, b, c = (7.0 * iPu, 3.0 * noise, 0.5 * pe) if reassigned \
+        else (iPu, noise, pe)
     if variant == "whitening":
-        obj = bdm.WhiteningBD(K, iPu, noise, pe)
+        obj = bdm.WhiteningBD(K, a, b, c)
     else:
-        obj = bdm.EnhancedBD(K, iPu, noise, pe)
+        obj = bdm.EnhancedBD(K, a, b, c)
+    if reassigned:
+        # a power / noise sweep on one object: public attributes assigned
+        ctx.label("attributes_reassigned")
+        obj.iPu = iPu
+        obj.noise_var = noise
+        obj.pe = pe
+    if variant != "whitening":
         if metric in ("naive", "fixed"):
             obj.set_ext_int_handling_metric(
                 metric, {"num_streams": int(case["num_streams"])})
